@@ -8,6 +8,7 @@ import (
 	"net/http"
 	"sort"
 	"strings"
+	"unicode/utf8"
 
 	connect "github.com/bufbuild/connect-go"
 	"google.golang.org/protobuf/proto"
@@ -122,6 +123,14 @@ func genErrPlan(t *core.Tape, notes map[string]int, bin map[string][][]byte) *Er
 		e.Msg = "backend call failed: " + map[int]string{1: "context canceled", 2: "context deadline exceeded"}[e.WrapCtx]
 		notes["err_wraps_context_error"]++
 	}
+	if !e.NilErr && e.WrapCtx == 0 && t.Bool(1, 8, "err.wraps.eof") {
+		// an error (coded or plain) whose cause wraps io.EOF - what a handler
+		// holds when its backend hung up (net/http: Post "...": EOF): an error
+		// like any other, not the end of anything
+		e.WrapEOF = true
+		e.Msg = "backend call failed: Post \"http://backend.internal/x\": EOF"
+		notes["err_wraps_eof"]++
+	}
 	if !e.Plain && t.Bool(1, 6, "err.wrapped") {
 		e.Wrapped = true
 		notes["err_wrapped_coded"]++
@@ -180,6 +189,16 @@ func genRich(t *core.Tape, tier, prop string) *Scenario {
 	p.ReqHeader = genMeta(t, "X-Q", p.bin)
 	p.RespHeader = genMeta(t, "X-H", p.bin)
 	p.RespTrailer = genMeta(t, "X-T", p.bin)
+	if prop == "C11" && t.Bool(1, 4, "wellknown.names") {
+		// metadata under names HTTP itself knows but the protocols do not use:
+		// ordinary end-to-end fields an application may set (all of them legal
+		// in HTTP trailers too)
+		names := []string{"Content-Language", "Content-Location", "Allow", "Link", "Etag", "Server-Timing"}
+		p.ReqHeader.Add(names[t.Choose(len(names), "wk.q")], "q-"+genValue(t))
+		p.RespHeader.Add(names[t.Choose(len(names), "wk.h")], "h-"+genValue(t))
+		p.RespTrailer.Add(names[t.Choose(len(names), "wk.t")], "t-"+genValue(t))
+		sc.Notes["well_known_metadata_names"]++
+	}
 	shared := t.Bool(1, 3, "shared.key")
 	if shared {
 		// the same key as response header and as trailer (and, below, as error
@@ -389,6 +408,18 @@ func containsValues(got, want http.Header) (string, bool) {
 		}
 	}
 	return "", true
+}
+
+// sameText compares an error text as received with the text the application
+// supplied. Text that is not valid UTF-8 cannot travel as it is in any of the
+// three protocols; what must arrive then is the same text with each invalid
+// stretch replaced by something - compared here with the invalid bytes and the
+// replacement characters both removed.
+func sameText(want, got string) bool {
+	if utf8.ValidString(want) {
+		return want == got
+	}
+	return strings.ToValidUTF8(want, "") == strings.ReplaceAll(got, "\uFFFD", "")
 }
 
 func expectedError(p *CallPlan) (connect.Code, string) {
